@@ -22,8 +22,8 @@ import collections
 from . import detsched as D
 from .common import import_lazy_dataset, stable_hash
 
-ENTRIES = ('stp', 'lpm', 'pf1', 'pft', 'parmap', 'chain', 'chainmid')
-POOL_ENTRIES = ('lpm', 'pft', 'parmap', 'chain', 'chainmid')
+ENTRIES = ('stp', 'lpm', 'pf1', 'pft', 'parmap', 'chain', 'chainmid', 'chainpar')
+POOL_ENTRIES = ('lpm', 'pft', 'parmap', 'chain', 'chainmid', 'chainpar')
 
 
 class UserExc(Exception):
@@ -149,7 +149,11 @@ class SchedWorld:
 
     def quiesce(self):
         S = self.S
-        S.block_until(lambda: not [t for t in S.enabled() if t.name != 'main'],
+        # (not S.enabled(): that evaluates the predicate of 'main' as well,
+        # which is this very predicate)
+        S.block_until(lambda: not [t for t in S.threads
+                                   if t.name != 'main' and not t.done
+                                   and (t.pred is None or t.timed or t.pred())],
                       'quiesce')
         return [(t.name, t.desc) for t in S.threads if not t.done and t.name != 'main']
 
@@ -215,15 +219,28 @@ def make_body(sc, e, raised_objs):
 
                 indexable = False
                 ordered = True
-            if entry == 'stp':
-                it = pu.single_thread_prefetch(BadIterable(), b)
-            elif entry == 'lpm':
-                it = pu.lazy_parallel_map(fn, BadIterable(), buffer_size=b,
-                                          max_workers=w, backend='t')
-            elif entry == 'pf1':
-                it = iter(BadIterable().map(fn).prefetch(1, b))
-            else:
-                it = iter(BadIterable().map(fn, num_workers=w, buffer_size=b))
+            def _raises_at_first_next(exc):
+                raise exc
+                yield
+            try:
+                if entry == 'stp':
+                    it = pu.single_thread_prefetch(BadIterable(), b)
+                elif entry == 'lpm':
+                    it = pu.lazy_parallel_map(fn, BadIterable(), buffer_size=b,
+                                              max_workers=w, backend='t')
+                elif entry == 'pf1':
+                    it = iter(BadIterable().map(fn).prefetch(1, b))
+                else:
+                    it = iter(BadIterable().map(fn, num_workers=w, buffer_size=b))
+            except S.STOP:
+                raise
+            except BaseException as exc:
+                # a stage that asks its input for an iterator when iter() is
+                # called on itself (not a generator function) surfaces the
+                # failure one call earlier; for the consumer of a for loop
+                # that is the same thing
+                ev('raised_at_iter', type(exc).__name__)
+                it = _raises_at_first_next(exc)
         elif entry == 'stp':
             it = pu.single_thread_prefetch(fgen(), b)
         elif entry == 'lpm':
@@ -253,6 +270,11 @@ def make_body(sc, e, raised_objs):
                 elif entry == 'chainmid':
                     # the mapped function sits BETWEEN two prefetching stages
                     ds = ds.prefetch(w, max(b, w), 't').map(fn).prefetch(1, b)
+                elif entry == 'chainpar':
+                    # a single-thread prefetch FEEDING a parallel map: the
+                    # pool stage consumes a live background iterator
+                    ds = ds.prefetch(1, b).map(fn, num_workers=w, buffer_size=max(b, w),
+                                               backend='t')
                 else:
                     raise ValueError(entry)
                 if sc.get('path'):
@@ -510,10 +532,13 @@ def judge_errors(sc, r, res, ld):
     # raised as soon as it is pulled, before (at most buffer_size + 1) earlier
     # results - or an earlier failure among them - have been handed over
     srcf = {int(p): k for p, k in ((sc.get('faults') or {}).get('src') or {}).items()}
-    consumer_side = sc['entry'] in ('lpm', 'parmap') and srcf
+    # ('chainpar': the source of the parallel map is a prefetch iterator, a
+    # failure that comes out of it is a source failure of the parallel map)
+    consumer_side = sc['entry'] in ('lpm', 'parmap', 'chainpar') and srcf
     relaxed = consumer_side and where == 'src'
+    bsz = max(sc['b'], sc.get('w', 1)) if sc['entry'] == 'chainpar' else sc['b']
     if consumer_side and oc == 'raised' and where != 'src':
-        ahead = [(p, k) for p, k in sorted(srcf.items()) if pos < p <= pos + sc['b'] + 1]
+        ahead = [(p, k) for p, k in sorted(srcf.items()) if pos < p <= pos + bsz + 1]
         for p, k in ahead:
             if isinstance(exc, exc_for(k, ld)) and exc.args == (('src', p),):
                 res.count('source_fault_preempted_earlier_failure')
@@ -611,7 +636,7 @@ def judge_readahead(sc, r, res, inflight=0):
     res.maximum(f'pulled_minus_delivered:{key}', mp)
     if sc['entry'] != 'stp':
         res.maximum(f'started_minus_delivered:{key}', ms)
-    if sc['entry'] in ('chain', 'chainmid'):
+    if sc['entry'] in ('chain', 'chainmid', 'chainpar'):
         # two buffering stages in a row: the bounds add up
         lim_p = (max(b, sc.get('w', 1)) + 2) + (b + 2)
         lim_s = max(b, sc.get('w', 1)) + (b + 2)
